@@ -46,6 +46,32 @@ Proof.
   split; reflexivity.
 Qed.
 
+(* ---- the other entry points: decompress_if_needed is total as well; read_panic_on_decompression
+   panics exactly where its name says (a compressed, connected datagram), nowhere else ---- *)
+Theorem C06_other_entry_points : forall (decomp : Packet6.HuffC) bs hint cap,
+  bytes_ok bs = true -> (1400 <= cap)%nat ->
+  no_panic (Packet6.decompress_if_needed6 decomp bs cap)
+  /\ no_panic (Packet7.decompress_if_needed7 decomp bs cap)
+  /\ match snd (Packet6.read_nodecomp6 bs hint) with
+     | Panic s => s = Packet6.site6_read_no_buffer /\ Packet6.needs_decompression6 bs = true
+     | OutOfFuel => False
+     | _ => True
+     end
+  /\ match snd (Packet7.read_nodecomp7 bs) with
+     | Panic s => s = Packet7.site7_read_no_buffer /\ Packet7.needs_decompression7 bs = true
+     | OutOfFuel => False
+     | _ => True
+     end.
+Proof.
+  intros decomp bs hint cap Hb Hc. split; [|split; [|split]].
+  - pose proof (Packet6Total.decompress_if_needed6_total decomp bs cap Hb Hc) as H.
+    unfold no_panic. destruct (Packet6.decompress_if_needed6 decomp bs cap); auto.
+  - pose proof (Packet7Total.decompress_if_needed7_total decomp bs cap Hb Hc) as H.
+    unfold no_panic. destruct (Packet7.decompress_if_needed7 decomp bs cap); auto.
+  - exact (Packet6Total.read_nodecomp6_spec bs hint Hb).
+  - exact (Packet7Total.read_nodecomp7_spec bs Hb).
+Qed.
+
 (* ---- every returned view lies inside the input or inside the scratch buffer, and the
    returned value is inside the size limits of the writer ---- *)
 Theorem C06_views_in_bounds6 : forall (decomp : Packet6.HuffC) bs hint cap ws p vs,
@@ -201,6 +227,7 @@ Proof. split; [exact PktToy.toy_ok|]. vm_compute. repeat split. Qed.
 Print Assumptions C06_total6.
 Print Assumptions C06_total7.
 Print Assumptions C06_small_scratch_panics.
+Print Assumptions C06_other_entry_points.
 Print Assumptions C06_views_in_bounds6.
 Print Assumptions C06_views_in_bounds7.
 Print Assumptions C06_chunks_total6.
